@@ -295,6 +295,10 @@ def run(ctx):
     check_call_arguments(ctx, "C03.ARGS", "C03")
     from ..rules_common import check_effect_tables
     check_effect_tables(ctx, "C03")
+    from ..rules_common import check_region_table, statements_mentioning
+    check_region_table(ctx, "C03.TABLE", init, statements_mentioning({"yday", "yearday", "nlyearday"}),
+                       "yearday / nlyearday become month + day through the cumulative month-end table; yearday past the 59th day carries leapdays = -1",
+                       "__init__: yearday conversion")
     from ..rules_common import check_presence_tests, ARG_SCOPE
     check_presence_tests(ctx, "C03.PRESENCE", classes=ARG_SCOPE.get("C03", []))
 
